@@ -251,6 +251,8 @@ def c20(tier):
     res += run_cases(mk("access", 150 if q else 6000, s + 20, "default", n_ops=60, precondition=False))
     sizes = [None, 4095, 4096, 4097, 8192, 12288, 16384]
     res += run_cases([dict(kind="credfile-size", seed=s * 131 + i, config="default", sim=False, params=dict(size=sizes[i % len(sizes)])) for i in range(21 if q else 210)])
+    pres, pcases = passwd_allocfail_cases(tier, s)
+    res += pres + run_cases(pcases)
     return report("C20", "fault_enumeration", res,
                   "(a) file level (authfs harness, real auth_file.c with --wrap'ed file-system calls): for generated credential files (DES/MD5/SHA-256/SHA-512, "
                   "1-6 users, up to 32 groups, below and above 4 KiB) every password change is re-run with a crash before and after each mutating file-system "
@@ -299,6 +301,22 @@ def c07(tier):
                   t0, tier, SIM_ASSUME, min_events={"baseline_checks": 500, "shutdowns": 800})
 
 
+
+def passwd_allocfail_cases(tier, s):
+    """one authorised password change (own account / by an admin, raw / WebSocket) with allocation number n failing, for every n"""
+    q = tier == "quick"
+    variants = [("self", "raw"), ("admin", "raw")] + ([] if q else [("self", "ws"), ("admin", "ws")])
+    counting = [dict(kind="allocfail-passwd", seed=s * 17 + i, config="default", params=dict(who=w, transport=t)) for i, (w, t) in enumerate(variants)]
+    cres = run_cases(counting)
+    cases = []
+    for r in cres:
+        n = r.alloc_count or 0
+        for i in range(n):
+            for cnt in ((1,) if q else (1, 2, 4)):
+                cases.append(dict(kind="allocfail-passwd", seed=r.case["seed"], config="default", params=dict(r.case["params"], nth=i, count=cnt)))
+    return cres, cases
+
+
 @check("C15")
 def c15(tier):
     t0 = time.time()
@@ -324,12 +342,13 @@ def c15(tier):
             cases.append(dict(kind="allocfail", seed=rng.randrange(1 << 30), config="default",
                               params=dict(script=r.case["params"]["script"], nth=rng.randrange(max(n, 1)), count=rng.choice([2, 2, 3, 5]))))
     cases += mk("reclaim", 60 if q else 2000, s + 30, "lowheap", mode="lowheap", n_ops=120)
-    res = cres + run_cases(cases)
+    pres, pcases = passwd_allocfail_cases(tier, s)
+    res = cres + pres + run_cases(cases + pcases)
     return report("C15", "fault_enumeration", res,
                   "corpus of 8 scripted sessions (every request type, raw/unix/WebSocket handshakes, routed requests answered / timed out / orphaned by caller and "
                   "owner disconnects, fetch table growth, failed HTTP upgrades, fragmented and close frames); a clean run counts the N allocations of the script "
                   "(cjet_malloc/cjet_calloc incl. cJSON), then allocation number n fails for every n in 0..N-1 (thorough; every 2nd, offset by the seed, in quick) "
-                  "plus random 2-5 consecutive failures, plus bus histories under a 256 KiB heap cap that ordinary adds reach; oracle: sanitizers, at most one response per request, only the connection whose processing hit the "
+                  "plus random 2-5 consecutive failures, plus an authorised password change (credential file in place) with every allocation failing once: answer, accepted credentials and file must agree (old XOR new), plus bus histories under a 256 KiB heap cap that ordinary adds reach; oracle: sanitizers, at most one response per request, only the connection whose processing hit the "
                   "failure may be dropped, a fresh connection is served normally afterwards, idle baseline after closing, clean SIGTERM exit with LeakSanitizer; "
                   "distinct = (script, transport of the victim) signatures; allocations counted: %d" % total,
                   t0, tier, SIM_ASSUME + ["only allocations through cjet_malloc/cjet_calloc (incl. cJSON hooks) are failed; zlib/websocket plain malloc is not used by the daemon's enabled features"],
